@@ -568,3 +568,381 @@ def _ionmass_post(st, interp, C, res):
 
 U_ION_MASS = Unit("Ion.mass", CORE + ".Ion.mass", _ionmass_inputs, _ionmass_post,
                   doc="justifies the ion clause of the atom theory's well-formedness (L4)")
+
+
+# ==============================================================================  C12
+# natural mass of an atom: the isotope replaced by its natural element, ion charge kept
+#   element e          -> mass(e)
+#   isotope i of e     -> mass(e)
+#   ion of element e   -> mass(e) - q m_e       ( == mass(ion) )
+#   ion of isotope i   -> mass(element(i)) - q m_e
+
+def natural_mass(a):
+    b = T.BASE(a)
+    me = z3.RealVal(ATOMS.me)
+    return z3.If(T.KIND(a) == 0, T.MASS(a),
+                 z3.If(T.KIND(a) == 1, T.MASS(b),
+                       z3.If(T.KIND(b) == 0, T.MASS(b) - me * z3.ToReal(T.CHARGE(a)),
+                             T.MASS(T.BASE(b)) - me * z3.ToReal(T.CHARGE(a)))))
+
+
+def natural_sum(st, A):
+    return spec.SumOver(st, A.dom, z3.Lambda([_a], z3.Select(A.val, _a) * natural_mass(_a)), T.Atom)
+
+
+def isotope_sum(st, A):
+    return spec.SumOver(st, A.dom, z3.Lambda([_a], z3.Select(A.val, _a) * T.MASS(_a)), T.Atom)
+
+
+def _nmr_inputs(st, interp):
+    args, kw, C = _self_inputs("known")(st, interp)
+    A = denotation_map(st, C["S"])
+    C["nat"], C["iso"] = natural_sum(st, A), isotope_sum(st, A)
+    st.assume(C["iso"] > 0)      # a formula with positive mass (instance of SumOver.positive)
+    return args, kw, C
+
+
+def _nmr_post(st, interp, C, res):
+    if res.outcome == "raise":
+        st.oblige("never-raises", False, kind="raises", info={"exc": res.exc})
+        return
+    st.oblige("post.ratio == natural mass (ion charges kept) / actual mass",
+              spec.eq_goal(interp, st, res.value, C["nat"] / C["iso"]))
+
+
+def _nmr_defs():
+    def nat(E):
+        A = E.it
+        return spec.SumOver(E.st, E.V, z3.Lambda([_a], z3.Select(A.val, _a) * natural_mass(_a)), T.Atom)
+
+    def iso(E):
+        A = E.it
+        return spec.SumOver(E.st, E.V, z3.Lambda([_a], z3.Select(A.val, _a) * T.MASS(_a)), T.Atom)
+    return {"total_natural_mass": nat, "total_isotope_mass": iso}
+
+
+U_NAT_RATIO = Unit("Formula.natural_mass_ratio", F + "natural_mass_ratio", _nmr_inputs, _nmr_post,
+                   contracts=CALLEE, loops={(F + "natural_mass_ratio", 1): {"define": _nmr_defs()}},
+                   replay={"module": "c12", "task": "replay"})
+
+
+def c_natural_mass_ratio(interp, st, args, kw):
+    self = args[0]
+    A = c_atoms_getter(interp, st, [self], {})
+    return natural_sum(st, A) / isotope_sum(st, A)
+
+
+CALLEE_RATIO = dict(CALLEE)
+CALLEE_RATIO[F + "natural_mass_ratio"] = c_natural_mass_ratio
+
+
+def _nd_inputs(st, interp):
+    args, kw, C = _nmr_inputs(st, interp)
+    st.assume(C["nat"] > 0)
+    return args, kw, C
+
+
+def _ndget_post(st, interp, C, res):
+    if res.outcome == "raise":
+        st.oblige("never-raises-when-density-known", False, kind="raises", info={"exc": res.exc})
+        return
+    rho = C["self"].attrs["density"]
+    st.oblige("post.natural_density == density * natural mass / actual mass",
+              spec.eq_goal(interp, st, res.value, rho * (C["nat"] / C["iso"])))
+    frame_unchanged(st, C["self"], C["snapshot"])
+
+
+U_NATDENS_GET = Unit("Formula.natural_density[get]", F + "natural_density", _nd_inputs, _ndget_post,
+                     contracts=CALLEE_RATIO, replay={"module": "c12", "task": "replay"})
+
+
+def _ndset_inputs(st, interp):
+    args, kw, C = _nd_inputs(st, interp)
+    v = st.fresh("natural_density", z3.RealSort())
+    st.assume(v > 0)
+    C["v"] = v
+    return args + [v], kw, C
+
+
+def _ndset_post(st, interp, C, res):
+    if res.outcome == "raise":
+        st.oblige("never-raises", False, kind="raises", info={"exc": res.exc})
+        return
+    rho = C["self"].attrs["density"]
+    st.oblige("post.setting natural density then reading it back is the identity",
+              spec.eq_goal(interp, st, to_real(rho) * (C["nat"] / C["iso"]), C["v"]))
+    others = all(C["self"].attrs[k] is C["snapshot"][k] for k in C["snapshot"] if k != "density")
+    st.oblige("frame.only-density-changed", z3.BoolVal(bool(others)), kind="frame")
+
+
+U_NATDENS_SET = Unit("Formula.natural_density[set]", F + "natural_density@setter", _ndset_inputs, _ndset_post,
+                     contracts=CALLEE_RATIO, replay={"module": "c12", "task": "replay"})
+
+
+# ---- Formula.__init__ : density precedence and the single-atom default
+
+def _init_inputs(mode):
+    def mk(st, interp):
+        use_state(st)
+        s = SEQS.new(st, "structure")
+        s.kind = "tuple"
+        obj = VObj(FCLS, {})
+        kw = {"structure": s}
+        C = {"S": s.expr, "obj": obj, "mode": mode}
+        A = denotation_map(st, s.expr)
+        C["nat"], C["iso"] = natural_sum(st, A), isotope_sum(st, A)
+        st.assume(z3.And(C["iso"] > 0, C["nat"] > 0))
+        if mode in ("density", "natural_density"):
+            v = st.fresh(mode, z3.RealSort())
+            st.assume(v > 0)
+            kw[mode] = v
+            C["v"] = v
+        return [obj], kw, C
+    return mk
+
+
+def _init_post(st, interp, C, res):
+    if res.outcome == "raise":
+        st.oblige("never-raises", False, kind="raises", info={"exc": res.exc})
+        return
+    obj = C["obj"]
+    rho = obj.attrs.get("density", "missing")
+    st.oblige("post.structure-stored", z3.BoolVal(isinstance(obj.attrs.get("structure"), VSym)
+                                                   and z3.eq(obj.attrs["structure"].expr, C["S"])))
+    if C["mode"] == "density":
+        st.oblige("post.density keyword sets the density", spec.eq_goal(interp, st, rho, C["v"]))
+    elif C["mode"] == "natural_density":
+        st.oblige("post.natural_density keyword: density * natural/actual == given value",
+                  spec.eq_goal(interp, st, to_real(rho) * (C["nat"] / C["iso"]), C["v"]))
+    else:
+        A = denotation_map(st, C["S"])
+        card = shims.card_of(interp, st, A)
+        k = st.fresh("the_atom", T.Atom)
+        single = z3.And(card == 1, z3.Select(A.dom, k))
+        if rho is None or isinstance(rho, VOpt):
+            isnone = z3.BoolVal(True) if rho is None else rho.is_none
+            val = None if rho is None else rho.val
+            st.oblige("post.no density keyword: density is the atom's for a single-atom formula, else None",
+                      z3.And(z3.Implies(z3.Not(card == 1), isnone),
+                             z3.Implies(single, z3.And(isnone == T.DENS_NONE(k),
+                                                       z3.Implies(z3.Not(isnone), (val if val is not None else z3.RealVal(0)) == T.DENS(k))))))
+        else:
+            st.oblige("post.no density keyword: density is the atom's for a single-atom formula, else None",
+                      z3.And(card == 1, z3.Implies(single, z3.And(z3.Not(T.DENS_NONE(k)), to_real(rho) == T.DENS(k)))))
+
+
+from pyvc import shims  # noqa
+U_INIT = [Unit("Formula.__init__[%s]" % m, F + "__init__", _init_inputs(m), _init_post,
+               contracts=CALLEE_RATIO, inline={F + "natural_density@setter"},
+               replay={"module": "c12", "task": "replay"})
+          for m in ("density", "natural_density", "default")]
+
+
+# ---- util.cell_volume and Formula.volume
+
+UTIL = "periodictable.util"
+
+
+def _cv_inputs(nargs, angles):
+    def mk(st, interp):
+        names = ["a", "b", "c"][:nargs]
+        vals = {}
+        for n in names:
+            vals[n] = st.fresh(n, z3.RealSort())
+            st.assume(vals[n] > 0)
+        kw = dict(vals)
+        ang = {}
+        for n in ["alpha", "beta", "gamma"][:angles]:
+            ang[n] = st.fresh(n, z3.RealSort())
+            st.assume(z3.And(ang[n] > 0, ang[n] < 180))
+            kw[n] = ang[n]
+        C = {"len": vals, "ang": ang}
+        return [], kw, C
+    return mk
+
+
+def _cosd(st, x):
+    from pyvc import shims as S
+    r = S.COSD_F(to_real(x))
+    return r
+
+
+def _cv_post(st, interp, C, res):
+    if res.outcome == "raise":
+        # math.sqrt of a negative argument: not a valid cell
+        st.oblige("raises only for an invalid cell", z3.BoolVal(res.exc == "ValueError"), kind="raises", info={"exc": res.exc})
+        return
+    L, A = C["len"], C["ang"]
+    a = L["a"]
+    b = L.get("b", a)
+    c = L.get("c", a)
+    ca = _cosd(st, A["alpha"]) if "alpha" in A else z3.RealVal(0)
+    cb = _cosd(st, A["beta"]) if "beta" in A else ca
+    cg = _cosd(st, A["gamma"]) if "gamma" in A else ca
+    rad = 1 - ca * ca - cb * cb - cg * cg + 2 * ca * cb * cg
+    v = to_real(res.value)
+    st.oblige("post.V == a b c sqrt(1 - cos^2 alpha - cos^2 beta - cos^2 gamma + 2 cos alpha cos beta cos gamma)",
+              z3.And(v >= 0, v * v == a * a * b * b * c * c * rad))
+
+
+U_CELL_VOLUME = [Unit("util.cell_volume[%d lengths, %d angles]" % (n, k), UTIL + ".cell_volume", _cv_inputs(n, k), _cv_post,
+                      replay={"module": "c12", "task": "replay"})
+                 for n, k in ((1, 0), (3, 0), (1, 1), (3, 3), (2, 2))]
+
+
+def _cv_missing_inputs(st, interp):
+    return [], {}, {}
+
+
+def _cv_missing_post(st, interp, C, res):
+    st.oblige("post.missing lattice parameter raises TypeError", z3.BoolVal(res.outcome == "raise" and res.exc == "TypeError"), kind="raises")
+
+
+U_CELL_VOLUME_MISSING = Unit("util.cell_volume[no parameters]", UTIL + ".cell_volume", _cv_missing_inputs, _cv_missing_post)
+
+
+def _vol_inputs(mode):
+    def mk(st, interp):
+        use_state(st)
+        f = new_formula(st, "self")
+        C = {"self": f, "S": f.attrs["structure"].expr, "mode": mode, "snapshot": dict(f.attrs)}
+        args, kw = [f], {}
+        if mode == "pf-number-positional":
+            pf = st.fresh("packing_factor", z3.RealSort())
+            st.assume(pf > 0)
+            args.append(pf)
+            C["pf"] = pf
+        elif mode == "pf-number-keyword":
+            pf = st.fresh("packing_factor", z3.RealSort())
+            st.assume(pf > 0)
+            kw["packing_factor"] = pf
+            C["pf"] = pf
+        elif mode.startswith("pf-name:"):
+            kw["packing_factor"] = mode.split(":", 1)[1]
+        elif mode == "default":
+            pass
+        # every atom of the formula has a covalent radius (otherwise None**3 raises: not in the quantifier)
+        st.ghost["atom_attr"] = _radius_known
+        return args, kw, C
+    return mk
+
+
+def _radius_known(interp, st, v, name, node):
+    return NotImplemented
+
+
+def _vol_post(st, interp, C, res):
+    from pyvc import shims as S
+    if res.outcome == "raise":
+        A = denotation_map(st, C["S"])
+        ex = z3.Const("a!ex", T.Atom)
+        st.oblige("raises only if some atom has no covalent radius",
+                  z3.And(z3.BoolVal(res.exc == "TypeError"),
+                         z3.Exists([ex], z3.And(z3.Select(A.dom, ex), T.COVR_NONE(ex)))), kind="raises", info={"exc": res.exc})
+        return
+    A = denotation_map(st, C["S"])
+    V = spec.SumOver(st, A.dom, z3.Lambda([_a], T.COVR(_a) * T.COVR(_a) * T.COVR(_a) * z3.Select(A.val, _a)), T.Atom)
+    pi = S.PI
+    mode = C["mode"]
+    doc_pf = {"cubic": lambda: pi / 6, "bcc": lambda: pi * S.SQRT_F(z3.RealVal(3)) / 8,
+              "hcp": lambda: pi / S.SQRT_F(z3.RealVal(18)), "fcc": lambda: pi / S.SQRT_F(z3.RealVal(18)),
+              "diamond": lambda: pi * S.SQRT_F(z3.RealVal(3)) / 16}
+    if "pf" in C:
+        pf = C["pf"]
+    elif mode == "default":
+        pf = doc_pf["hcp"]()
+    else:
+        pf = doc_pf[mode.split(":", 1)[1].lower()]()
+    for x in (3, 18):
+        r = S.SQRT_F(z3.RealVal(x))
+        st.assume(z3.And(r > 0, r * r == x))
+    st.oblige("post.volume == (4 pi/3) sum n r_cov^3 / packing_factor * 1e-24",
+              spec.eq_goal(interp, st, res.value, 4 * pi / 3 * V / pf * z3.RealVal("1e-24")))
+    frame_unchanged(st, C["self"], C["snapshot"])
+
+
+def _vol_loop(E):
+    A = E.it
+    return spec.SumOver(E.st, E.V, z3.Lambda([_a], T.COVR(_a) * T.COVR(_a) * T.COVR(_a) * z3.Select(A.val, _a)), T.Atom)
+
+
+def _vol_inv(E):
+    return []
+
+
+_VOL_MODES = ["default", "pf-number-positional", "pf-number-keyword", "pf-name:cubic", "pf-name:bcc", "pf-name:hcp",
+              "pf-name:fcc", "pf-name:diamond", "pf-name:BCC", "pf-name:Diamond"]
+U_VOLUME = [Unit("Formula.volume[%s]" % m, F + "volume", _vol_inputs(m), _vol_post, contracts=CALLEE,
+                 loops={(F + "volume", 1): {"define": {"V": _vol_loop}}},
+                 replay={"module": "c12", "task": "replay"}) for m in _VOL_MODES]
+
+
+# ---- _isotope_substitution / Formula.replace
+
+def c_formula_from_dict(interp, st, args, kw):
+    """formula(atoms_dict, density=d): a formula whose atoms are those of the dict and whose density is d
+    (formula() dict route -> _convert_to_hill_notation keeps the composition: units in C19)"""
+    m = interp.resolve(st, args[0])
+    if not isinstance(m, VMap):
+        raise Unsupported("formula() callee contract expects an atom map here")
+    return VObj("FormulaOfMap", {"__atoms__": VMap(m.dom, m.val, m.ksort, m.vsort, m.wrap, m.inst),
+                                 "density": kw.get("density")})
+
+
+def _sub_inputs(st, interp):
+    use_state(st)
+    f = new_formula(st, "compound")
+    src = ATOMS.new(st, "source")
+    tgt = ATOMS.new(st, "target")
+    p = st.fresh("portion", z3.RealSort())
+    st.assume(z3.And(p >= 0, p <= 1, src.expr != tgt.expr))
+    A = denotation_map(st, f.attrs["structure"].expr)
+    M = mass_spec(st, A)
+    st.assume(M > 0)
+    return [f, src, tgt], {"portion": p}, {"f": f, "src": src.expr, "tgt": tgt.expr, "p": p, "A": A, "M": M,
+                                           "snapshot": dict(f.attrs)}
+
+
+def _sub_post(st, interp, C, res):
+    f, s, t, p, A, M = C["f"], C["src"], C["tgt"], C["p"], C["A"], C["M"]
+    if res.outcome == "raise":
+        st.oblige("never-raises (unknown density stays unknown)", False, kind="raises", info={"exc": res.exc})
+        return
+    r = res.value
+    ok = isinstance(r, VObj) and "__atoms__" in r.attrs
+    st.oblige("post.returns-formula", z3.BoolVal(ok))
+    if not ok:
+        return
+    B = r.attrs["__atoms__"]
+    k = st.fresh("a_sk", T.Atom)
+    if A.inst:
+        A.inst(st, k)
+    ns = z3.Select(A.val, s)
+    has_s = z3.Select(A.dom, s)
+    old = z3.If(z3.Select(A.dom, k), z3.Select(A.val, k), z3.RealVal(0))
+    new = z3.If(z3.Select(B.dom, k), z3.Select(B.val, k), z3.RealVal(0))
+    want = z3.If(has_s,
+                 z3.If(k == t, old + p * ns, z3.If(k == s, (1 - p) * ns, old)),
+                 old)
+    st.oblige("post.counts: target += portion*n_source, source *= (1-portion), all others unchanged", new == want)
+    st.oblige("post.membership: source removed exactly at portion 1; target present when source was; others unchanged",
+              z3.Select(B.dom, k) == z3.If(has_s, z3.If(k == t, z3.BoolVal(True),
+                                                        z3.If(k == s, p != 1, z3.Select(A.dom, k))),
+                                           z3.Select(A.dom, k)))
+    rho0 = f.attrs["density"]
+    rho1 = r.attrs["density"]
+    rho1 = interp.resolve(st, rho1) if isinstance(rho1, VOpt) else rho1
+    none0 = rho0.is_none
+    if rho1 is None:
+        st.oblige("post.density unknown only if it was unknown", none0)
+    else:
+        st.oblige("post.density known only if it was known", z3.Not(none0))
+        newmass = M - z3.If(has_s, ns * p * (T.MASS(s) - T.MASS(t)), z3.RealVal(0))
+        st.oblige("post.density scales with the mass at fixed cell volume: rho' == rho * mass'/mass",
+                  to_real(rho1) * M == rho0.val * newmass)
+    frame_unchanged(st, f, C["snapshot"], "compound")
+
+
+U_SUBSTITUTION = Unit("_isotope_substitution", FORMULAS + "._isotope_substitution", _sub_inputs, _sub_post,
+                      contracts=dict(CALLEE_MASS, **{FORMULAS + ".formula": c_formula_from_dict}),
+                      replay={"module": "c12", "task": "replay"})
